@@ -6,6 +6,8 @@ Case kinds
   loc    tz.localize() of a wall-clock second with / without a daylight-saving designation
   wf     the well-formedness hypothesis of the zone theorems, evaluated on an extracted table
   cmp    the six comparison operators on two instants
+  seq    a sequence of operations on ONE timestamp object (str/render/.local, +=, -=, +, -, copy, the .utc/.local
+         setters, comparison): the lazily cached rendering must follow the value
   dur    format a duration and parse the text back;  durp: parse a (mostly malformed) duration text
 
 The time-zone tables handed to the model are extracted per case from the installed tz database through
@@ -315,7 +317,9 @@ class C17(Suite):
             "transitions; thorough: every zone x every transition) at 1 ms steps and sub-millisecond fractions that "
             "round up, year 1 / 1970 / 9999 boundaries, exact binary ties, all precisions 0..6, UTC / zone-key / "
             "abbreviation / numeric renderings; mutated renderings; instant pairs 0.998..1.002 ms apart; durations "
-            "with every unit zero/non-zero up to 10^5 years; non-trivial = everything except a plain positive UTC "
+            "with every unit zero/non-zero up to 10^5 years; operation sequences on one timestamp object (render, "
+            "+=, -=, +, -, copy, .utc/.local assignment, compare; exhaustive to length 2 (thorough 3) + random to length "
+            "10; non-trivial = a rendering, then a change of value, then a rendering or comparison); non-trivial = everything except a plain positive UTC "
             "instant without carry; distinct by input")
     assumptions = [
         "binary64 values are used where the float grid resolves the requested precision (|t| < 2^33 for 6 digits, "
@@ -435,6 +439,8 @@ class C17(Suite):
         yield from self.cmp_cases(tier, rng)
         # 5. durations
         yield from self.dur_cases(tier, rng)
+        # 6. operation sequences on ONE timestamp object (the cached rendering must follow the value)
+        yield from self.seq_cases(tier, rng)
 
     ALPHABET = "0123456789 :-.+_/TZabcMSDUCGmstu\t,"
 
@@ -507,6 +513,241 @@ class C17(Suite):
                 d = 1001
             b = a + rng.choice([d, -d])
             yield {"kind": "cmp", "a": (a / M).hex(), "b": (b / M).hex()}
+
+    # ---- sequences: ops are ["s"] str(), ["r", p] render(ms=p), ["L"] .local, ["iadd"|"isub"|"add"|"sub", float hex],
+    #      ["copy"] obj = timestamp(obj), ["utc"|"loc", text] the setters, ["cmp", float hex] compare with a fresh timestamp
+    def seq_text(self, mu_ms, word):
+        """a well-formed rendering of the instant mu_ms (a multiple of 1000 us) for the setters"""
+        dt = EPOCH + datetime.timedelta(microseconds=mu_ms)
+        return dt.strftime("%Y-%m-%d %H:%M:%S") + ".%03d" % (dt.microsecond // 1000) + (" " + word if word else "")
+
+    def seq_cases(self, tier, rng):
+        import itertools
+        base = 1399326141.0
+        step = 61.0
+        alphabet = [["s"], ["r", 3], ["iadd", (0.0).hex()], ["iadd", (0.001).hex()], ["iadd", step.hex()],
+                    ["isub", (1.5).hex()], ["isub", (0.0).hex()], ["add", (0.0).hex()], ["add", (2.0).hex()],
+                    ["sub", (0.25).hex()], ["copy"], ["utc", self.seq_text(1414915140250000, None)],
+                    ["utc", "2014-13-01 00:00:00"], ["loc", self.seq_text(86400500000, "UTC")],
+                    ["cmp", base.hex()], ["cmp", (base + step / 2).hex()], ["L"]]
+        finals = [["s"], ["cmp", base.hex()], ["cmp", (base + step).hex()]]
+        for n in (1, 2) if tier == "quick" else (1, 2, 3):
+            for combo in itertools.product(alphabet, repeat=n):
+                for fin in finals:
+                    yield {"kind": "seq", "v": base.hex(), "ops": [list(o) for o in combo] + [fin]}
+        # the four sequences of the property's wording on other instants: render, advance in place, render / compare
+        for b, st in [(1414915140.25, 0.001), (0.5, 86400.0), (1394355540.999, 3600.5), (-0.75, 0.5), (0.9996, 0.0004)]:
+            for mut in ("iadd", "isub", "add", "sub"):
+                yield {"kind": "seq", "v": b.hex(), "ops": [["s"], [mut, st.hex()], ["s"], ["cmp", b.hex()],
+                                                           ["cmp", (b + st / 2).hex()], ["r", 3], ["L"]]}
+        nrand = 2500 if tier == "quick" else 40000
+        steps = [0.0, 0.001, 0.0005, 0.002, 1.0, 1.5, 61.0, 3600.5, 86400.0, 0.000001, 0.9996, 59.9996, 1e-9]
+        for _ in range(nrand):
+            sec = rng.choice([rng.randrange(-2 ** 31, 2 ** 32), rng.randrange(0, 2 ** 31), 1399326141, 0, -1, 951782399])
+            mu = sec * M + rng.choice([0, 500000, 999600, 250000, 999999, rng.randrange(M)])
+            v = mu / M
+            ops = []
+            for _ in range(rng.randrange(2, 10)):
+                r = rng.random()
+                if r < 0.30:
+                    ops.append(rng.choice([["s"], ["s"], ["r", rng.choice([0, 3, 6])], ["L"]]))
+                elif r < 0.62:
+                    n = rng.choice(steps) * rng.choice([1, 1, 1, 7])
+                    ops.append([rng.choice(["iadd", "iadd", "isub", "add", "sub"]), float(n).hex()])
+                elif r < 0.70:
+                    ops.append(["copy"])
+                elif r < 0.80:
+                    t = rng.randrange(0, 2 ** 31) * M + rng.randrange(1000) * 1000
+                    word = rng.choice([None, None, "UTC", "Etc/UTC"])
+                    text = self.seq_text(t, word)
+                    if rng.random() < 0.2:
+                        # texts that are certainly refused (the value simulation below must know)
+                        text = rng.choice(["", "garbage", "2014-13-01 00:00:00.000 UTC", text.replace("-", "/", 1),
+                                           text + " Nowhere/Zone", "2014-01-02 03:04 UTC"])
+                    ops.append([rng.choice(["utc", "loc"]) if word else "utc", text])
+                else:
+                    ops.append(["cmp", (v + rng.choice(steps) * rng.choice([-1, 0, 1])).hex()])
+            ops.append(rng.choice([["s"], ["cmp", v.hex()]]))
+            yield self.seq_unband({"kind": "seq", "v": v.hex(), "ops": ops})
+
+    def seq_unband(self, c):
+        """keep comparison partners out of the band |a - b| = 1 ms +- 2 us, where binary64 noise decides `<`"""
+        ops = []
+        for op, v, _ in self.seq_walk(c):
+            if op[0] == "cmp":
+                b = float.fromhex(op[1])
+                if abs(abs(Fraction(v) - Fraction(b)) * M - 1000) < 2:
+                    op = ["cmp", (b + (5e-6 if b >= v else -5e-6)).hex()]
+            ops.append(op)
+        return {**c, "ops": ops}
+
+    def seq_walk(self, c):
+        """the floats the object holds along the sequence, by plain binary64 arithmetic (no cpppo): yields
+        (op, new value or None when the op does not assign)"""
+        v = float.fromhex(c["v"])
+        for op in c["ops"]:
+            k = op[0]
+            if k in ("iadd", "add"):
+                n = float.fromhex(op[1])
+                v = v + n if n else v
+                yield op, v, bool(n)
+            elif k in ("isub", "sub"):
+                n = float.fromhex(op[1])
+                v = v - n if n else v
+                yield op, v, bool(n)
+            elif k in ("utc", "loc"):
+                m = re.fullmatch(r"(\d{4})-(\d\d)-(\d\d) (\d\d):(\d\d):(\d\d)\.(\d{3})(?: (UTC|Etc/UTC))?", op[1])
+                if m:
+                    import calendar
+                    f = [int(x) for x in m.groups()[:7]]
+                    try:
+                        dt = datetime.datetime(*f[:6], tzinfo=UTC)
+                        v = calendar.timegm(dt.utctimetuple()) + (f[6] * 1000) / 1000000
+                    except ValueError:
+                        pass
+                yield op, v, None
+            else:
+                yield op, v, None
+
+    def seq_line(self, c):
+        from cpppo.history.times import timestamp
+        mu, bias = mu_bias(float.fromhex(c["v"]))
+        toks = []
+        words = set()
+        for op, v, nz in self.seq_walk(c):
+            k = op[0]
+            if k == "s":
+                toks.append("s")
+            elif k == "r":
+                toks.append(f"r:{op[1]}")
+            elif k == "L":
+                toks.append("L")
+            elif k in ("iadd", "isub", "add", "sub"):
+                m2, b2 = mu_bias(v)
+                toks.append(f"{'i' if k[0] == 'i' else 'a'}:{int(nz)}:{m2}:{b2}")
+            elif k == "copy":
+                toks.append("k")
+            elif k in ("utc", "loc"):
+                toks.append("u:" + hexs(op[1]))
+                words.update(candidate_words(op[1]))
+            elif k == "cmp":
+                m2, b2 = mu_bias(float.fromhex(op[1]))
+                toks.append(f"c:{m2}:{b2}")
+        loc = getattr(timestamp.LOC, "key", None) or getattr(timestamp.LOC, "zone", None)
+        ltok = ZONES.table(loc, max(MIN_T, min(MAX_T, mu // M))) if loc and ZONES.valid_key(loc) else "-"
+        return f"ts.seq {mu} {bias} {ltok} {db_for(sorted(words), 0)} " + ",".join(toks)
+
+    def seq_impl(self, c):
+        from cpppo.history.times import timestamp
+        obj = timestamp(float.fromhex(c["v"]))
+        outs = []
+
+        def text_of(fn):
+            try:
+                return fn()
+            except ValueError:
+                return "reject:range"
+        for op in c["ops"]:
+            k = op[0]
+            if k == "s":
+                outs.append(text_of(lambda: str(obj)))
+            elif k == "r":
+                outs.append(text_of(lambda: obj.render(ms=op[1])))
+            elif k == "L":
+                outs.append(text_of(lambda: obj.local))
+            elif k == "iadd":
+                obj += float.fromhex(op[1])
+                outs.append("-")
+            elif k == "isub":
+                obj -= float.fromhex(op[1])
+                outs.append("-")
+            elif k == "add":
+                obj = obj + float.fromhex(op[1])
+                outs.append("-")
+            elif k == "sub":
+                obj = obj - float.fromhex(op[1])
+                outs.append("-")
+            elif k == "copy":
+                obj = timestamp(obj)
+                outs.append("-")
+            elif k in ("utc", "loc"):
+                try:
+                    if k == "utc":
+                        obj.utc = op[1]
+                    else:
+                        obj.local = op[1]
+                    outs.append("ok")
+                except Exception as exc:
+                    outs.append(classify_exception(exc))
+            elif k == "cmp":
+                b = timestamp(float.fromhex(op[1]))
+                bits = "".join(str(int(bool(r))) for r in (obj < b, obj > b, obj <= b, obj >= b, obj == b, obj != b))
+                outs.append(bits + "~" + text_of(lambda: str(obj)) + "~" + text_of(lambda: str(b)))
+        return ";".join(outs)
+
+    def seq_oracle(self, c, out):
+        """from the property statement, on the real object: every UTC rendering the object gives parses back to the
+        instant the object holds at that moment (to the millisecond); comparison agrees with the order of the renderings"""
+        from cpppo.history.times import timestamp
+        outs = out.split(";")
+        walk = list(self.seq_walk(c))
+        if len(outs) != len(walk):
+            return f"{len(walk)} operations gave {len(outs)} answers"
+        # the instant held after each op: re-run the real object alongside and read .value (an observation of the real code)
+        obj = timestamp(float.fromhex(c["v"]))
+        for i, (op, _, _) in enumerate(walk):
+            k = op[0]
+            try:
+                if k == "iadd":
+                    obj += float.fromhex(op[1])
+                elif k == "isub":
+                    obj -= float.fromhex(op[1])
+                elif k == "add":
+                    obj = obj + float.fromhex(op[1])
+                elif k == "sub":
+                    obj = obj - float.fromhex(op[1])
+                elif k == "copy":
+                    obj = timestamp(obj)
+                elif k == "utc":
+                    obj.utc = op[1]
+                elif k == "loc":
+                    obj.local = op[1]
+            except Exception:
+                pass
+            x = Fraction(obj.value) * M
+            o = outs[i]
+            texts = []
+            if k == "s":
+                texts.append((o, 3))
+            elif k == "r":
+                texts.append((o, op[1]))
+            elif k == "cmp":
+                bits, sa, sb = o.split("~")
+                texts.append((sa, 3))
+                lt, gt, le, ge, eq, ne = [ch == "1" for ch in bits]
+                if len(sa) == 23 and len(sb) == 23:
+                    if lt and not sa < sb:
+                        return f"after {c['ops'][:i]}: {sa} < {sb} by comparison but not by rendering"
+                    if gt and not sa > sb:
+                        return f"after {c['ops'][:i]}: {sa} > {sb} by comparison but not by rendering"
+                    if sa == sb and (lt or gt or ne or not eq or not le or not ge):
+                        return f"after {c['ops'][:i]}: equal renderings {sa} do not compare equal"
+            for text, p in texts:
+                if text == "reject:range":
+                    if MIN_T + 2 * 86400 <= obj.value < MAX_T - 2 * 86400:
+                        return f"after {c['ops'][:i]}: an instant within years 1..9999 cannot be rendered"
+                    continue
+                try:
+                    got = Fraction(timestamp(text).value) * M
+                except Exception as exc:
+                    return f"after {c['ops'][:i + 1]}: rendering {text!r} is refused ({type(exc).__name__})"
+                q = 10 ** (6 - p)
+                mu = half_even(x)           # ms=False: the second of the instant taken to the nearest microsecond
+                bad = got != mu - mu % M if p == 0 else abs(got - x) * 2 > q + 1
+                if bad:
+                    return (f"after {c['ops'][:i + 1]}: the timestamp holds {obj.value!r} but renders as {text!r}, "
+                            f"which parses back to {float(got / M)!r}")
+        return None
 
     DUR_UNITS = [31557600, 604800, 86400, 3600, 60, 1]
 
@@ -612,6 +853,8 @@ class C17(Suite):
             return f"ts.loc {ZONES.table(c['zone'], c['centre'])} {flag} {c['w']}"
         if k == "wf":
             return f"ts.wf {ZONES.table(c['zone'], c['centre'])}"
+        if k == "seq":
+            return self.seq_line(c)
         if k == "cmp":
             a, _ = mu_bias(float.fromhex(c["a"]))
             b, _ = mu_bias(float.fromhex(c["b"]))
@@ -673,6 +916,8 @@ class C17(Suite):
             return f"ok {timestamp.number_from_datetime(dt):.0f}"
         if k == "wf":
             return "wf" if table_wf(ZONES.table(c["zone"], c["centre"])) else "not-wf"
+        if k == "seq":
+            return self.seq_impl(c)
         if k == "cmp":
             a, b = timestamp(float.fromhex(c["a"])), timestamp(float.fromhex(c["b"]))
             return " ".join(str(int(bool(r))) for r in (a < b, a > b, a <= b, a >= b, a == b, a != b))
@@ -831,6 +1076,8 @@ class C17(Suite):
             return out
         if k == "wf":
             return None
+        if k == "seq":
+            return self.seq_oracle(c, out)
         if k == "cmp":
             a, b = timestamp(float.fromhex(c["a"])), timestamp(float.fromhex(c["b"]))
             lt, gt, le, ge, eq, ne = [r == "1" for r in out.split()]
@@ -863,8 +1110,28 @@ class C17(Suite):
         return None
 
     # --------------------------------------------------------------------------------------------
+    @staticmethod
+    def seq_shape(c):
+        """'render-mutate-render' when a cached rendering exists, the value is then changed, and the object is rendered
+        or compared-by-rendering afterwards"""
+        stage = 0
+        for op in c["ops"]:
+            k = op[0]
+            if k in ("s", "cmp"):
+                if stage == 1:
+                    stage = 1
+                elif stage == 2:
+                    return "render-mutate-render"
+                else:
+                    stage = 1
+            elif stage == 1 and (k in ("utc", "loc") or (k in ("iadd", "isub", "add", "sub") and float.fromhex(op[1]))):
+                stage = 2
+        return "other"
+
     def nontrivial(self, c, out):
         k = c["kind"]
+        if k == "seq":
+            return json.dumps(c, sort_keys=True) if self.seq_shape(c) == "render-mutate-render" else None
         if k == "rt":
             if c["zone"] is None and c["detail"] == "n":
                 value = float.fromhex(c["v"])
@@ -900,6 +1167,11 @@ class C17(Suite):
             return f"{k}:" + ("ok" if out.startswith("ok") else out)
         if k == "wf":
             return "wf:" + out
+        if k == "seq":
+            kinds = {op[0] for op in c["ops"]}
+            groups = [g for g, ks in (("inplace", {"iadd", "isub"}), ("arith", {"add", "sub", "copy"}), ("setter", {"utc", "loc"}))
+                      if kinds & ks]
+            return "seq:" + self.seq_shape(c) + ":" + ("+".join(groups) or "observe-only")
         if k == "cmp":
             return "cmp:" + out.replace(" ", "")
         if k == "dur":
@@ -908,6 +1180,15 @@ class C17(Suite):
 
     def shrink(self, c):
         k = c["kind"]
+        if k == "seq":
+            ops = c["ops"]
+            for i in range(len(ops)):
+                if len(ops) > 1:
+                    yield {**c, "ops": ops[:i] + ops[i + 1:]}
+            v = float.fromhex(c["v"])
+            if v != float(int(v)):
+                yield {**c, "v": float(int(v)).hex()}
+            return
         if k == "rt":
             value = float.fromhex(c["v"])
             mu, _ = mu_bias(value)
